@@ -35,6 +35,10 @@ def gen_cases(rng, count, force=None, multi_eval=False, prefix="c"):
         if multi_eval == "lm":
             k, area, _ = gen.gen_params(rng)
             evals = [(k, area, False), (k, area, True)]
+        elif multi_eval == "area":
+            k, area, lm = gen.gen_params(rng)
+            a2 = rng.choice([0.001953125, 3.0, 64.0, 250.0, 12345.0])
+            evals = [(k, area, lm), (k, a2, lm)]
         elif multi_eval == "k":
             k, area, lm = gen.gen_params(rng)
             kk = rng.choice([0.25, 0.5, 0.75, rng.randint(1, 63) / 64.0])
